@@ -61,7 +61,7 @@ def build(reg):
         ref_fields=rf, ref_methods=rm, result=TOpt(TRef("Obj")),
         ensures=[("name", "implies(result is not None, lower(result.name) == var_name_lower)"),
                  ("not_private", "implies(result is not None and filter_public, "
-                                 "not private_in(result, eff_vis(local_scope, def_vis)))")],
+                                 "not private_in(result, eff_vis(local_scope, old(def_vis))))")],
         calls={"check_scope": f"{UTIL}.find_in_scope.check_scope", "isinstance": m_isinstance_function},
         loops={0: LoopSpec("for child in local_scope.get_children()", index="_k", invariants=[("trivial", "True")])},
         abstract_stmts={"from .function import Function": ()}, ghost={"constants": {"Function": 0}},
